@@ -23,8 +23,11 @@ Definition C05_strict_full : Prop :=
         scalars: nothing more).  Required keys, null at non-null, list structure, object shape, nested
         objects at any depth and __typename literals are enforced exactly.
         UNION-typed composite fields are included (the discriminated union is as strict as the members'
-        classes); INTERFACE-typed ones are not: the Literal of the base class contains the interface's own
-        name (C05_interface_self_typename_accepted below).
+        classes).  INTERFACE-typed ones are included when every possible type has its own inline fragment
+        and every type condition names the interface or a possible type (strict_sub); there the relaxed
+        relation's third parameter (self_ok = true, Exec.abs_candidates) makes the ONE exception explicit:
+        the interface's own name is admitted as runtime type, because the Literal of the generated base
+        class contains it (finding F8; C05_interface_self_typename_accepted, C05_interface_hypotheses_satisfiable).
         Guards beyond C01's (sels_strict): no __typename directly at the operation root (F29: plain str),
         no @skip/@include on a field of non-null type (its added Optional also admits an explicit null),
         every custom scalar used is configured (otherwise the annotation is Any, which admits null).
@@ -320,3 +323,42 @@ Example C05_interface_self_typename_accepted :
     conf_op_gen lax_leaf false true 20 SI [] "Query" selsI j = true /\
     accepts 20 cls (schema_enums SI) (AClass "Q") j = true /\ covers 20 cls (AClass "Q") j = true.
 Proof. eexists. split; [vm_compute; reflexivity|]. vm_compute. repeat split. Qed.
+
+(* ---- an interface position inside the strictness theorem: every possible type has a variant; the
+        interface's own name is the one accepted non-conformant __typename, and the relaxed relation
+        (self_ok = true) says so ---- *)
+Definition SI2 : schema :=
+  {| s_types := [("Query", DObject [] [("named", TNamed "Named")]);
+                 ("Named", DInterface [] [("name", TNamed "String")]);
+                 ("A", DObject ["Named"] [("name", TNamed "String"); ("x", TNamed "Int")]);
+                 ("Int", DScalar); ("String", DScalar)];
+     s_query := Some "Query"; s_mutation := None; s_subscription := None |}.
+Definition selsI2 : list sel :=
+  [SField None "named" false []
+     (Some [SField None "__typename" false [] None; SField None "name" false [] None;
+            SInline (Some "A") false [SField None "x" false [] None]])].
+Example C05_interface_hypotheses_satisfiable :
+  exists own pub' cls,
+    root_type_name SI2 "query" = Ok "Query" /\
+    op_parse 10 C0 SI2 [] "query" "Q" [] selsI2 = Ok (own, pub', false) /\
+    all_classes 10 C0 SI2 [] (DOp "query" "Q" [] selsI2) = Ok cls /\
+    op_ok 10 true C0 SI2 [] "Query" selsI2 = true /\ sels_strict 10 C0 SI2 [] false "Query" selsI2 = true /\
+    no_basemodel own = true /\
+    (let j := JObj [("named", JObj [("__typename", JStr "A"); ("name", JStr "n"); ("x", JInt 1)])] in
+     accepts 12 cls (schema_enums SI2) (AClass "Q") j = true /\ covers 12 cls (AClass "Q") j = true /\
+     conf_op 10 SI2 [] "Query" selsI2 j = true) /\
+    (let j := JObj [("named", JObj [("__typename", JStr "Named"); ("name", JStr "n")])] in
+     accepts 12 cls (schema_enums SI2) (AClass "Q") j = true /\ covers 12 cls (AClass "Q") j = true /\
+     conf_op 10 SI2 [] "Query" selsI2 j = false /\
+     conf_op_gen lax_leaf false true 10 SI2 [] "Query" selsI2 j = true) /\
+    accepts 12 cls (schema_enums SI2) (AClass "Q")
+            (JObj [("named", JObj [("__typename", JStr "B"); ("name", JStr "n")])]) = false /\
+    accepts 12 cls (schema_enums SI2) (AClass "Q")
+            (JObj [("named", JObj [("__typename", JStr "A"); ("name", JStr "n"); ("x", JStr "no")])]) = false.
+Proof.
+  do 3 eexists.
+  split; [reflexivity|].
+  split; [vm_compute; reflexivity|].
+  split; [vm_compute; reflexivity|].
+  vm_compute. repeat split.
+Qed.
